@@ -211,6 +211,8 @@ def run(ck):
             special = [[1.0, -1.0, 0.0], [1.0, 1.0, -2.0], [0.0, 1.0, -1.0], [2.0, -1.0, -1.0], [0.0, 0.0, 1.0], [-1.0, 0.0, 1.0]]
             dipoles = [list(map(float, special[(s + k_) % len(special)])) for k_ in range(n)]
         widths = rng.sample([100.0, 150.0, 220.0, 300.0], n)            # a different width on every molecule
+        if s % 4 == 3:
+            energies[1] = energies[0]          # two different pigments absorbing at exactly the same energy (widths differ)
         coupled = s % 2 == 0
         couplings = {(i, j): rng.choice([40.0, -90.0, 150.0]) for i in range(n) for j in range(i + 1, n)} if coupled else {}
         relax = coupled and rng.random() < 0.5
@@ -220,6 +222,9 @@ def run(ck):
         pols = [(X3, X3, X3, X3), (X3, X3, Y3, Y3), (X3, Y3, X3, Y3), (X3, Y3, Y3, X3),
                 (X3, Y3, (X3 + Y3) / math.sqrt(2.0), 0.6 * X3 + 0.8 * Z3), tuple(rand_unit() for _ in range(4))]
         pol = pols[s % len(pols)] if not ck.quick else pols[(2 * s + 1) % len(pols)]
+        if s % 4 == 2:
+            # polarisation vectors as they are written down: X+Y for 45 degrees, amplitudes folded in (the average is linear in each of them)
+            pol = (X3, X3 + Y3, 0.5 * Y3 + 0.0 * X3, 2.0 * X3 - 1.0 * Z3)
         sysinp = {"sites": n, "energies_cm": energies, "dipoles": dipoles, "widths_cm": widths, "couplings_cm": {"%d-%d" % k: v for k, v in couplings.items()},
                   "relaxation": relax, "t2": t2, "polarisations": [list(map(float, p)) for p in pol]}
         try:
@@ -235,7 +240,7 @@ def run(ck):
         ck.case(("system", s), nontrivial=(len(set(widths)) > 1 or coupled), kind="response", sites=n, coupled=coupled, relaxation=relax,
                 pathways=len(pws), sample=sysinp if s == 0 else None)
         # ---- (a) prefactors of all pathways ---------------------------------------------------------------------------------
-        e = [np.array(lab.e[k, :], dtype=float) for k in range(4)]
+        e = [np.array(pol[k], dtype=float) for k in range(4)]       # the four-tuple that was handed to the lab
         for ip, p in enumerate(pws):
             d = [np.array(p.dmoments[k, :], dtype=float) for k in range(4)]
             n0 = p.transitions[0, 1]
@@ -251,7 +256,7 @@ def run(ck):
                 impl.append((dict(sysinp, pathway=ip, ptype=str(getattr(p, "pathway_type", getattr(p, "ptype", "?"))), part=part),
                              complex(p.pref).real if part == "re" else complex(p.pref).imag))
             want = sign * exact_average(e, d) * rho0 * ev
-            refsc = max(abs(ev) * rho0 * float(np.prod([np.linalg.norm(x) for x in d])), 1e-300)
+            refsc = max(abs(ev) * rho0 * float(np.prod([np.linalg.norm(x) for x in d])) * float(np.prod([np.linalg.norm(x) for x in e])), 1e-300)
             dev = abs(complex(p.pref) - want) / refsc
             ck.resid("pathway prefactor vs SO(3) quadrature (relative to |d|^4)", dev)
             if dev > 1e-12:
@@ -349,6 +354,9 @@ def run(ck):
     for trial in range(ck.n(40, 400)):
         mode = trial % 4
         e = [rand_unit() for _ in range(4)] if mode else [rng.choice([X3, Y3, Z3]) for _ in range(4)]
+        if trial % 8 == 5:
+            # vectors of any length: the average is the one of the four-tuple that was given (linear in each vector)
+            e = [rng.choice([0.5, 2.0, 1.0, 3.0]) * v for v in e] if trial % 16 == 5 else [X3 + Y3, 0.5 * Y3, 2.0 * X3, X3 - Z3]
         d = [np.array([rng.uniform(-2, 2) for _ in range(3)]) for _ in range(4)]
         if mode == 2:
             d[1] = d[0].copy(); d[3] = d[2].copy()
@@ -356,13 +364,13 @@ def run(ck):
         F4n = np.array([np.dot(d[3], d[2]) * np.dot(d[1], d[0]), np.dot(d[3], d[1]) * np.dot(d[2], d[0]), np.dot(d[3], d[0]) * np.dot(d[2], d[1])])
         got = float(np.dot(lab.F4eM4, F4n))
         want = exact_average(e, d)
-        sc = float(np.prod([np.linalg.norm(x) for x in d]))
-        ck.case(("tuple", trial), nontrivial=True, kind="four-tuple")
+        sc = float(np.prod([np.linalg.norm(x) for x in d])) * float(np.prod([np.linalg.norm(x) for x in e]))
+        ck.case(("tuple", trial), nontrivial=True, kind="four-tuple", unit_vectors=bool(trial % 8 != 5))
         ck.resid("F4eM4.F4n vs SO(3) quadrature", abs(got - want) / sc)
         if abs(got - want) > 1e-12 * sc:
             ck.fail("average:labsetup", "F4e.M4.F4n differs from the average over all orientations", {"e": [list(map(float, x)) for x in e],
                     "d": [list(map(float, x)) for x in d]}, got, want)
-        lines.append("pref 1 1 1 %s %s" % (" ".join(frac(x) for v in lab.e for x in v), " ".join(frac(x) for v in d for x in v)))
+        lines.append("pref 1 1 1 %s %s" % (" ".join(frac(x) for v in e for x in v), " ".join(frac(x) for v in d for x in v)))
         impl.append(({"four_tuple": trial}, got))
 
     # ---- the width / dephasing blocks that diagonalize() builds for aggregates with two-exciton states vs the Lean model --------------
